@@ -334,7 +334,24 @@ declared = tuple(arr.shape)
 computed = tuple(arr.compute().shape)
 print(kind, "max_shifts", ms, "scale", scale, "upsample", up, "box", box, ": declared", declared, "computed", computed)
 ok = declared == computed
-print("clause holds natively (declared shape == computed shape):", ok)
+# which molecule does task i belong to?  a probe model writes the arguments it receives into its landscape
+from scipy.spatial.transform import Rotation
+class Probe(_alm.ZNCCAlignment):
+    def landscape(self, img, max_shifts, quaternion=None, pos=None, upsample=1, backend=None):
+        out = np.zeros(self._landscape_shape(max_shifts, upsample), np.float32)
+        out.flat[0:3] = pos; out.flat[3:7] = quaternion; out.flat[7] = float(np.asarray(img).mean())
+        return out
+zz = np.indices((32, 32, 32))[0].astype(np.float32)                 # voxel value = z coordinate
+mole4 = Molecules(np.array([[8, 16, 16], [12, 15, 17], [18, 16, 15], [23, 17, 16]]) * scale, Rotation.random(4, random_state=3))
+ld4 = SubtomogramLoader(zz, mole4, order=1, scale=scale, output_shape=(5, 5, 5))
+got = ld4.construct_landscape(np.ones((5, 5, 5), np.float32), max_shifts=3.0 * scale, alignment_model=Probe).compute()
+for i in range(4):
+    row = got[i].ravel()
+    good = np.allclose(row[0:3], mole4.pos[i] / scale, atol=1e-4) and np.allclose(row[3:7], mole4.quaternion()[i], atol=1e-5) \
+        and abs(row[7] - mole4.pos[i, 0] / scale) < 0.75
+    print("task", i, "got position", np.round(row[0:3], 2), "quaternion", np.round(row[3:7], 3), "sub-volume mean z", round(float(row[7]), 2), "->", "molecule %d" % i if good else "NOT molecule %d" % i)
+    ok = ok and good
+print("clause holds natively (declared shape == computed shape; task i is molecule i):", ok)
 print("CONFIRMED" if not ok else "NOT-CONFIRMED"); sys.exit(1 if not ok else 0)
 '''
 
